@@ -149,10 +149,10 @@ Proof.
     + now rewrite (parse_table_length _ _ _ _ _ E).
 Qed.
 
-Lemma compile_limits c tbl prog o : compile c tbl prog = Ok o ->
+Lemma compile_with_limits ff pf c tbl prog o : compile_with ff pf c tbl prog = Ok o ->
   segments_ok o = true /\ (o_advanced o = true -> tables_ok c o = true).
 Proof.
-  unfold compile. fold (root_of prog). set (prog1 := root_of prog).
+  unfold compile_with. fold (root_of prog). set (prog1 := root_of prog).
   destruct (negb (c_nchan c =? c_cpp c)); [discriminate|].
   destruct (negb (c_nmark c =? c_cpp c)); [discriminate|].
   destruct (negb (c_nchan c =? 2)); [discriminate|].
@@ -161,8 +161,8 @@ Proof.
     unfold bind. destruct (parse_single tbl prog1) as [p|]; [|discriminate]. intros H.
     destruct (calc_segments_limits _ _ _ _ _ H) as (S1 & _ & _ & S4). split; [exact S1|]. rewrite S4. discriminate.
   - destruct (negb (depth prog1 >? 1)); [discriminate|]. destruct (negb (l_rep prog1 =? 1)); [discriminate|].
-    unfold bind. destruct (fab fab_fuel 2 [] (l_ch prog1)) as [ch1|]; [|discriminate].
-    destruct (prep prep_fuel (c_min c) (c_max c) [] ch1) as [ch2|]; [|discriminate].
+    unfold bind. destruct (fab ff 2 [] (l_ch prog1)) as [ch1|]; [|discriminate].
+    destruct (prep pf (c_min c) (c_max c) [] ch1) as [ch2|]; [|discriminate].
     destruct (negb (forallb _ ch2)) eqn:Ea; [discriminate|]. apply negb_false_iff in Ea.
     destruct (parse_aseq tbl (set_ch prog1 ch2)) as [p|] eqn:Ep; [|discriminate]. intros H.
     destruct (calc_segments_limits _ _ _ _ _ H) as (S1 & _ & S3 & _). split; [exact S1|]. intros _.
@@ -176,6 +176,10 @@ Proof.
     rewrite S3 in HL. apply in_map_iff in HL as (es & Hes & Hin). eapply Forall_forall in HP; [|exact Hin].
     unfold P in HP. rewrite Hes in HP. exact HP.
 Qed.
+
+Lemma compile_limits c tbl prog o : compile c tbl prog = Ok o ->
+  segments_ok o = true /\ (o_advanced o = true -> tables_ok c o = true).
+Proof. apply compile_with_limits. Qed.
 
 (* ---------------------------------------------------------------------------------------------------------- *)
 (* witnesses (non-vacuity / refutation), evaluated by the kernel's VM *)
